@@ -33,6 +33,8 @@ type SV struct {
 	Sub []*SV
 	// Fn: statically known function of a func value.
 	Fn *ssa.Function
+	// File: the value is (or was converted from) an interface with a Seek method: Read/Write on it are positional file operations.
+	File bool
 	// Boxed: payload of an interface value built by MakeInterface in this VC.
 	Boxed *SV
 	// For values built by contract expressions without a Go type.
